@@ -12,6 +12,7 @@ import (
 	"encoding/json"
 	"flag"
 	"fmt"
+	"io"
 	"runtime"
 	"sort"
 	"sync"
@@ -77,8 +78,15 @@ type scriptScanner struct {
 	onScan   func(n int64)
 }
 
+func reqID(r *scan.Request) int {
+	if r.Meta != nil {
+		return r.Meta["id"].(int)
+	}
+	return int(r.DstPort) - 1 // requests from the real file generator: id = port - 1
+}
+
 func (s *scriptScanner) Scan(ctx context.Context, r *scan.Request) (scan.Result, error) {
-	id := r.Meta["id"].(int)
+	id := reqID(r)
 	n := atomic.AddInt64(&s.started, 1)
 	s.mu.Lock()
 	s.calls[id]++
@@ -136,15 +144,34 @@ func (l *recLogger) Error(err error) {
 }
 
 type lockedBuf struct {
-	mu sync.Mutex
-	b  bytes.Buffer
+	mu   sync.Mutex
+	b    bytes.Buffer
+	gate chan struct{} // when non-nil, every Write waits until it is closed (a slow terminal / pipe)
 }
 
 func (b *lockedBuf) Write(p []byte) (int, error) {
+	if b.gate != nil {
+		<-b.gate
+	}
 	b.mu.Lock()
 	defer b.mu.Unlock()
 	return b.b.Write(p)
 }
+
+// stalledFile delivers its content and then blocks (an input pipe that stays open) until released
+type stalledFile struct {
+	r       *bytes.Reader
+	release chan struct{}
+}
+
+func (f *stalledFile) Read(p []byte) (int, error) {
+	if f.r.Len() > 0 {
+		return f.r.Read(p)
+	}
+	<-f.release
+	return 0, io.EOF
+}
+func (f *stalledFile) Close() error { return nil }
 
 type obs struct {
 	Case           int      `json:"case"`
@@ -165,10 +192,25 @@ type obs struct {
 	ElapsedMs      int64    `json:"elapsed_ms"`
 	Panic          string   `json:"panic"`
 	Goroutines     int      `json:"goroutines_left"`
+	ResCap         int      `json:"res_cap"`
+	Scenario       string   `json:"scenario"`
 }
 
 func runCase(idx int, class string, w, cap int, reqs []req, cancelAt int, delay time.Duration, slow bool) (o obs) {
-	o = obs{Case: idx, Class: class, W: w, Cap: cap, Reqs: reqs, CancelAt: cancelAt, DelayMs: int(delay / time.Millisecond)}
+	return runCaseX(idx, class, w, cap, reqs, cancelAt, delay, slow, 1000, false, false)
+}
+
+// runCaseX: resCap = capacity of the result channels; gated = the output writer blocks until shortly after the
+// cancellation; stalled = requests come from the REAL file generator reading an input that delivers all lines
+// and then stays open
+func runCaseX(idx int, class string, w, cap int, reqs []req, cancelAt int, delay time.Duration, slow bool,
+	resCap int, gated, stalled bool) (o obs) {
+	o = obs{Case: idx, Class: class, W: w, Cap: cap, Reqs: reqs, CancelAt: cancelAt, DelayMs: int(delay / time.Millisecond), ResCap: resCap}
+	if gated {
+		o.Scenario = "result path full, slow output"
+	} else if stalled {
+		o.Scenario = "real file generator on a stalled input"
+	}
 	byID := map[int]req{}
 	for _, r := range reqs {
 		byID[r.ID] = r
@@ -176,25 +218,58 @@ func runCase(idx int, class string, w, cap int, reqs []req, cancelAt int, delay 
 	ctx, cancel := context.WithCancel(context.Background())
 	defer cancel()
 	sc := &scriptScanner{byID: byID, calls: map[int]int{}, slow: slow}
+	out := &lockedBuf{}
+	if gated {
+		out.gate = make(chan struct{})
+	}
+	release := make(chan struct{})
+	defer func() {
+		select {
+		case <-release:
+		default:
+			close(release)
+		}
+	}()
 	if cancelAt >= 0 {
+		var once sync.Once
 		sc.onScan = func(n int64) {
-			if n == int64(cancelAt)+1 {
-				cancel()
+			if n == int64(cancelAt)+1 || ((gated || stalled) && n == int64(cancelAt)) {
+				once.Do(func() {
+					go func() {
+						if gated || stalled {
+							time.Sleep(3 * time.Millisecond) // let the last probe reach its blocking point
+						}
+						cancel()
+						if gated {
+							time.Sleep(5 * time.Millisecond)
+							close(out.gate)
+						}
+					}()
+				})
 			}
 		}
 		if cancelAt == 0 && len(reqs) == 0 {
 			cancel()
 		}
 	}
-	out := &lockedBuf{}
 	real, err := log.NewLogger(out, "c08", log.JSON())
 	if err != nil {
 		o.Panic = "logger: " + err.Error()
 		return
 	}
 	lg := &recLogger{Logger: real}
-	results := scan.NewResultChan(ctx, 1000)
-	engine := &watchEngine{EngineResulter: scan.NewScanEngine(&scriptGen{reqs, cap}, sc, results, scan.WithScanWorkerCount(w)), sc: sc}
+	results := scan.NewResultChan(ctx, resCap)
+	var gen scan.RequestGenerator = &scriptGen{reqs, cap}
+	if stalled {
+		var lines bytes.Buffer
+		for _, r := range reqs {
+			fmt.Fprintf(&lines, "{\"ip\":\"10.0.0.1\",\"port\":%d}\n", r.ID+1)
+		}
+		gen = scan.NewFileIPPortGenerator(func() (io.ReadCloser, error) {
+			return &stalledFile{r: bytes.NewReader(lines.Bytes()), release: release}, nil
+		})
+	}
+	engine := &watchEngine{EngineResulter: scan.NewScanEngine(gen, sc, results, scan.WithScanWorkerCount(w)), sc: sc}
 	before := runtime.NumGoroutine()
 	ret := make(chan string, 1)
 	t0 := time.Now()
@@ -283,11 +358,13 @@ func main() {
 		reqs                  []req
 		delay                 time.Duration
 		slow                  bool
+		resCap                int
+		gated, stalled        bool
 	}
 	var jobs []job
 	delay := time.Duration(*delayMs) * time.Millisecond
-	jobs = append(jobs, job{0, 1, 1, -1, "empty", nil, delay, false})
-	jobs = append(jobs, job{1, 2, 1, -1, "tiny", []req{{0, false, "pos"}, {1, true, "pos"}, {2, false, "neg"}, {3, false, "fail"}, {4, false, "pos"}}, delay, false})
+	jobs = append(jobs, job{idx: 0, w: 1, cap: 1, cancelAt: -1, class: "empty", delay: delay, resCap: 1000})
+	jobs = append(jobs, job{idx: 1, w: 2, cap: 1, cancelAt: -1, class: "tiny", reqs: []req{{0, false, "pos"}, {1, true, "pos"}, {2, false, "neg"}, {3, false, "fail"}, {4, false, "pos"}}, delay: delay, resCap: 1000})
 	for i := 0; i < *count; i++ {
 		w := workers[r.Intn(len(workers))]
 		cnt := r.Intn(*maxReq + 1)
@@ -300,13 +377,29 @@ func main() {
 		case 2:
 			class, pBad, pPos, pFail = "all-neg", 0, 0, 0
 		}
-		jobs = append(jobs, job{len(jobs), w, []int{0, 1, 100}[r.Intn(3)], -1, class, genReqs(r, cnt, pBad, pPos, pFail), delay, r.Intn(3) == 0})
+		jobs = append(jobs, job{idx: len(jobs), w: w, cap: []int{0, 1, 100}[r.Intn(3)], cancelAt: -1, class: class, reqs: genReqs(r, cnt, pBad, pPos, pFail), delay: delay, slow: r.Intn(3) == 0, resCap: 1000})
 	}
 	for i := 0; i < *cancels; i++ {
 		w := workers[r.Intn(len(workers))]
 		cnt := 1 + r.Intn(600)
-		jobs = append(jobs, job{len(jobs), w, []int{0, 1, 100}[r.Intn(3)], r.Intn(cnt/2 + 2), "cancel", genReqs(r, cnt, 20, 40, 20),
-			time.Duration(r.Intn(40)) * time.Millisecond, r.Intn(2) == 0})
+		switch i % 5 {
+		case 3:
+			// the whole result path is full when the cancellation falls: every worker is parked in Put
+			w = []int{1, 2, 7}[r.Intn(3)]
+			rc := 2 + r.Intn(30)
+			full := 2*rc + 2 + w
+			jobs = append(jobs, job{idx: len(jobs), w: w, cap: 1, cancelAt: full, class: "cancel", reqs: genReqs(r, full+8+r.Intn(20), 0, 100, 0),
+				delay: time.Duration(r.Intn(20)) * time.Millisecond, resCap: rc, gated: true})
+		case 4:
+			// the request source is the real file generator on an input that stays open after k lines
+			w = []int{1, 2, 7, 100}[r.Intn(4)]
+			k := r.Intn(40)
+			jobs = append(jobs, job{idx: len(jobs), w: w, cap: 0, cancelAt: k, class: "cancel", reqs: genReqs(r, k, 0, 40, 20),
+				delay: time.Duration(r.Intn(20)) * time.Millisecond, resCap: 1000, stalled: true})
+		default:
+			jobs = append(jobs, job{idx: len(jobs), w: w, cap: []int{0, 1, 100}[r.Intn(3)], cancelAt: r.Intn(cnt/2 + 2), class: "cancel",
+				reqs: genReqs(r, cnt, 20, 40, 20), delay: time.Duration(r.Intn(40)) * time.Millisecond, slow: r.Intn(2) == 0, resCap: 1000})
+		}
 	}
 	res := make([]obs, len(jobs))
 	sem := make(chan struct{}, *par)
@@ -320,7 +413,7 @@ func main() {
 		go func(j job) {
 			defer wg.Done()
 			defer func() { <-sem }()
-			res[j.idx] = runCase(j.idx, j.class, j.w, j.cap, j.reqs, j.cancelAt, j.delay, j.slow)
+			res[j.idx] = runCaseX(j.idx, j.class, j.w, j.cap, j.reqs, j.cancelAt, j.delay, j.slow, j.resCap, j.gated, j.stalled)
 		}(jobs[i])
 	}
 	wg.Wait()
